@@ -78,6 +78,23 @@ package trafficshape
 //@   ensures !invoked ==> result0 == 0 && result1 != nil
 
 //@ extern func (*sync.Once).Do
+// WriteTo / ReadFrom / Read move data under the LISTENER-WIDE buckets, which are shared by all connections: these are
+// used without their lock (FillThrottle); holding a shared bucket's lock across a blocking copy would stall every other
+// connection of the listener for as long as this one lives.
+//@ func (*Conn).WriteTo
+//@   serves C04 C18
+//@   requires c != nil && c.WriteBucket != nil && c.conn != nil
+//@   noframe
+//@   loop 0 invariant c != nil && c.WriteBucket != nil
+//@   at call all of FillThrottleLocked before assert[listener-wide-bucket-is-not-locked-across-a-blocking-copy] self != c.WriteBucket && self != c.ReadBucket
+//@   at call all of FillThrottle before assert[tunnel-writes-are-metered-by-the-listener-wide-write-bucket] self == c.WriteBucket
+//@ func (*Conn).ReadFrom
+//@   serves C04 C18
+//@   requires c != nil && c.ReadBucket != nil && c.conn != nil
+//@   noframe
+//@   loop 0 invariant c != nil && c.ReadBucket != nil
+//@   at call all of FillThrottleLocked before assert[listener-wide-bucket-is-not-locked-across-a-blocking-copy] self != c.WriteBucket && self != c.ReadBucket
+//@   at call all of FillThrottle before assert[tunnel-reads-are-metered-by-the-listener-wide-read-bucket] self == c.ReadBucket
 
 //@ pred wroteUpTo(consumed int, total int) = wireLen == total + consumed
 
@@ -181,8 +198,13 @@ package trafficshape
 //@   ensures[write-deadline-armed-on-the-wrapped-connection] tsDlWrite == old(tsDlWrite) + 1
 //@ extern iface net.Conn.Close
 //@ func (*Conn).Close
-//@   serves C18
+//@   serves C18 C01
 //@   requires c != nil && c.conn != nil
+// the listener-wide buckets are shared by every connection of the listener: closing one connection releases its own
+// buckets only (closing a shared bucket stops every other connection's reads or writes)
+//@   requires forall k string :: has(c.LocalBuckets, k) ==> c.LocalBuckets[k].ReadBucket != c.ReadBucket && c.LocalBuckets[k].ReadBucket != c.WriteBucket && c.LocalBuckets[k].WriteBucket != c.ReadBucket && c.LocalBuckets[k].WriteBucket != c.WriteBucket
+//@   ensures[listener-wide-buckets-stay-open-for-the-other-connections] (c.ReadBucket != nil ==> c.ReadBucket.bclosed == old(c.ReadBucket.bclosed)) && (c.WriteBucket != nil ==> c.WriteBucket.bclosed == old(c.WriteBucket.bclosed))
+//@   loop 0 invariant (c.ReadBucket != nil ==> c.ReadBucket.bclosed == old(c.ReadBucket.bclosed)) && (c.WriteBucket != nil ==> c.WriteBucket.bclosed == old(c.WriteBucket.bclosed))
 //@   requires forall k string :: has(c.LocalBuckets, k) ==> c.LocalBuckets[k] != nil && c.LocalBuckets[k].ReadBucket != nil && c.LocalBuckets[k].WriteBucket != nil
 //@   modifies Bucket.bclosed
 //@   ensures[per-connection-buckets-released] forall k string :: has(c.LocalBuckets, k) ==> c.LocalBuckets[k].ReadBucket.bclosed && c.LocalBuckets[k].WriteBucket.bclosed
